@@ -103,12 +103,13 @@ enum {
     CFG_NOSESSION = 1 << 10,
     CFG_IDX_FIXED = 1 << 11, // index of the next server address fixed by the 2 bits at CFG_IDX_SHIFT (else arbitrary within the invariant)
     CFG_IDX_SHIFT = 12,
-    CFG_EV_SHIFT = 14,      // event-specific case bits
+    CFG_EV_SHIFT = 14,      // event-specific case bits (5 bits)
+    CFG_NOREQ = 1 << 19,    // pre-state without outstanding requests
 };
 static inline unsigned cfgListener() { return (vp_c10_cfg() >> CFG_L_SHIFT) & 7; }
 static inline unsigned cfgNAddr() { return (vp_c10_cfg() >> CFG_N_SHIFT) & 3; }
 static inline unsigned cfgReq() { return (vp_c10_cfg() >> CFG_REQ_SHIFT) & 3; }
-static inline unsigned cfgEv() { return vp_c10_cfg() >> CFG_EV_SHIFT; }
+static inline unsigned cfgEv() { return (vp_c10_cfg() >> CFG_EV_SHIFT) & 31; }
 
 // local signal indices of QXmppOutgoingClient, measured through the real moc bodies (Fx::calibrate)
 struct SigIdx { unsigned connected, disconnected, errorOccurred; };
@@ -253,7 +254,7 @@ struct Fx {
             key[i] = vpFixString(i == 0 ? 1 : 2);      // distinct by construction (different lengths) for the two that may exist
             jid[i] = vpSymStringNonEmpty(2);
             new (map->slot(i)) VpIqMap::value_type(key[i], IqState { {}, jid[i] });
-            used[i] = i < C10_NREQ ? vp_bool() : false;
+            used[i] = (i < C10_NREQ && !(vp_c10_cfg() & CFG_NOREQ)) ? vp_bool() : false;
             map->t->s[i]->used = used[i];
             task[i].emplace(map->slot(i)->second.interface.task());
         }
